@@ -221,11 +221,18 @@ def check_from_parent(case):
     except Exception:
         return {"nontrivial": False, "classes": ["not-cleanable"]}
     src = f1
-    d = drivers.make_project({"proj/test_a.py": src, "proj/pyproject.toml": pyproject_of(case["mode"])}, pyproject=None)
+    where = ("parent", "sibling", "workspace")[len(src) % 3]
+    if where == "workspace":
+        # a workspace: the root pyproject.toml configures black, the package has a pyproject.toml of its own
+        # without a [tool.black] section (black skips such a file when it looks for its configuration)
+        layout = {"proj/test_a.py": src, "pyproject.toml": pyproject_of(case["mode"]),
+                  "proj/pyproject.toml": "[project]\nname = \"pkg\"\nversion = \"1\"\n"}
+    else:
+        layout = {"proj/test_a.py": src, "proj/pyproject.toml": pyproject_of(case["mode"])}
+    d = drivers.make_project(layout, pyproject=None)
     try:
         F = case["F"] or ["create", "fix"]
         # started in the parent directory, or in a sibling directory of the project (`pytest ../proj/test_a.py`)
-        where = "sibling" if len(src) % 2 else "parent"
         if where == "sibling":
             (d / "other").mkdir()
             r = drivers.run_pytest(d / "other", ["--inline-snapshot=" + ",".join(F), "../proj/test_a.py"])
